@@ -98,10 +98,16 @@ def random_periodic_trace(args):
 def run(ctx):
     global _NVAR
     _NVAR = ctx.pick(2, len(D.PERIODIC_SCALES))
-    ctx.mc("loop", "Periodic", "MC_Periodic.cfg", required_actions=["Start", "Stop", "Tick", "Done"])
-    paths = ctx.gen_paths("loop", "Gen_Periodic", "Gen_Periodic.cfg", overrides={"L": ctx.pick(5, 6)})
-    ctx.replay(paths, periodic_replayer, label="s2c-periodic",
-               nontrivial=lambda e, p: any(s["act"] == "tick" for s in p) and any(s["act"] == "start" for s in p))
+    full_ticks = "{" + ", ".join(str(10 * x + dm) for x in range(0, 13) for dm in range(0, 4)) + "}"
+    ctx.mc("loop", "Periodic", "MC_Periodic.cfg", required_actions=["Start", "Stop", "Tick", "Done"],
+           overrides=ctx.pick({}, {"Periods": "{1, 2, 3, 4, 5, 6}", "Ticks": full_ticks, "Back": 4, "MaxWall": 20, "MaxMono": 10}))
+    runs = ctx.pick([{"L": 5}],
+                    [{"L": 6, "Kinds": '{"sync", "coro", "raise"}'},
+                     {"L": 5, "Periods": "{1, 5}", "Kinds": '{"sync", "coro", "cororaise"}', "Ticks": "{41, 52, 31, 11, 101, 30, 73}"}])
+    for ov in runs:
+        paths = ctx.gen_paths("loop", "Gen_Periodic", "Gen_Periodic.cfg", overrides=ov)
+        ctx.replay(paths, periodic_replayer, label="s2c-periodic",
+                   nontrivial=lambda e, p: any(s["act"] == "tick" for s in p) and any(s["act"] == "start" for s in p))
     # extension: start() offered again while an invocation is still in flight (after stop)
     rp = ctx.gen_paths("loop", "Gen_Periodic", "Gen_Periodic.cfg",
                        overrides={"L": ctx.pick(6, 7), "Restart": 1, "Periods": "{2}", "Ticks": "{41, 52, 62}",
